@@ -3,7 +3,7 @@
    rationals: every strength, cost, target, every (also fractional) epoch and schedule length. *)
 From Coq Require Import QArith List ZArith.
 Import ListNotations.
-Require Import Plinio.Base.Qx Plinio.Model.Duccio Plinio.Proofs.Duccio.
+Require Import Plinio.Base.Qx Plinio.Model.Duccio Plinio.Proofs.Duccio Plinio.Gen.DuccioGen Plinio.Proofs.DuccioGen.
 Open Scope Q_scope.
 
 (* metrics are triples (final strength, cost, target) *)
@@ -46,6 +46,41 @@ Proof. exact derive_not_above. Qed.
 Theorem C19_base_linear : forall s c, base s c == s * c.
 Proof. exact base_linear. Qed.
 
+
+(* ---- the model GENERATED from the source of DUCCIO.__call__ / BaseRegularizer.__call__ of the tree under test
+        (Gen/DuccioGen.v, rewritten by translator/duccio2coq.py on every run) ---- *)
+(* it computes the hand-written model ... *)
+Theorem C19_generated_duccio_is_model : forall ms e n, duccio_gen ms e n == duccio ms e n.
+Proof. exact duccio_gen_eq. Qed.
+Theorem C19_generated_derive_is_model : forall task c t, derive_gen task c t == derive task c t.
+Proof. exact derive_gen_eq. Qed.
+Theorem C19_generated_base_is_model : forall s c, base_gen s c == base s c.
+Proof. exact base_gen_eq. Qed.
+
+(* ... and no division it performs on an evaluated path has a zero divisor: the lazily derived strength for EVERY
+   task loss, cost and target (at the target too), the schedule for every schedule length other than zero.
+   (Coq's x / 0 = 0 would otherwise hide the inf / nan of the float division.) *)
+Theorem C19_generated_derive_defined : forall task c t, derive_ok task c t = true.
+Proof. exact derive_gen_defined. Qed.
+Theorem C19_generated_step_defined : forall e n acc m, ~ n == 0 -> step_ok e n acc m = true.
+Proof. exact step_gen_defined. Qed.
+Theorem C19_generated_base_defined : forall s c, base_ok s c = true.
+Proof. exact base_gen_defined. Qed.
+
+(* hence the sentences of the property hold of the code as it is now *)
+Theorem C19_generated_duccio_nonneg : forall ms e n, 0 < n -> 0 <= e ->
+  Forall (fun m => 0 <= fst (fst m)) ms -> 0 <= duccio_gen ms e n.
+Proof. exact gen_duccio_nonneg. Qed.
+Theorem C19_generated_duccio_zero_iff : forall ms e n, 0 < n -> 0 <= e ->
+  Forall (fun m => 0 < fst (fst m)) ms ->
+  (duccio_gen ms e n == 0 <-> Forall (fun m => snd (fst m) <= snd m) ms).
+Proof. exact gen_duccio_zero_iff. Qed.
+Theorem C19_generated_derive_above : forall task c t, 0 < task -> t < c ->
+  0 < derive_gen task c t /\ derive_gen task c t * (c - t) == task.
+Proof. exact gen_derive_above. Qed.
+Theorem C19_generated_derive_not_above : forall task c t, c <= t -> derive_gen task c t == 0.
+Proof. exact gen_derive_not_above. Qed.
+
 (* the pinned upstream lazy initialisation divides by cost - target = 0 *)
 Theorem C19_upstream_derive_refuted : exists task c t, 0 < task /\ derive_v0 task c t = Inf.
 Proof. exact derive_v0_at_target_refuted. Qed.
@@ -75,3 +110,13 @@ Print Assumptions C19_derive_not_above.
 Print Assumptions C19_base_linear.
 Print Assumptions C19_upstream_derive_refuted.
 Print Assumptions C19_infinite_target_is_dropped.
+Print Assumptions C19_generated_duccio_is_model.
+Print Assumptions C19_generated_derive_is_model.
+Print Assumptions C19_generated_base_is_model.
+Print Assumptions C19_generated_derive_defined.
+Print Assumptions C19_generated_step_defined.
+Print Assumptions C19_generated_base_defined.
+Print Assumptions C19_generated_duccio_nonneg.
+Print Assumptions C19_generated_duccio_zero_iff.
+Print Assumptions C19_generated_derive_above.
+Print Assumptions C19_generated_derive_not_above.
